@@ -123,7 +123,15 @@ bool splinetable<Alloc>::read_fits(const std::string& filePath){
 			fits_report_error(stderr, error);
 		}
 	} cleanup(fits);
-	return(read_fits_core(fits, filePath));
+	try{
+		if(read_fits_core(fits, filePath))
+			return(true);
+	}catch(...){
+		release_partial();
+		throw;
+	}
+	release_partial();
+	return(false);
 }
 	
 template<typename Alloc>
@@ -149,9 +157,61 @@ bool splinetable<Alloc>::read_fits_mem(void* buffer, size_t buffer_size){
 			fits_report_error(stderr, error);
 		}
 	} cleanup(fits);
-	return(read_fits_core(fits, "memory 'file'"));
+	try{
+		if(read_fits_core(fits, "memory 'file'"))
+			return(true);
+	}catch(...){
+		release_partial();
+		throw;
+	}
+	release_partial();
+	return(false);
 }
 	
+///Release whatever a failed read has allocated and return to the empty state.
+///Every pointer is either null or refers to a block allocated by read_fits_core.
+template<typename Alloc>
+void splinetable<Alloc>::release_partial(){
+	if(knots){
+		for(uint32_t i=0; i<ndim; i++){
+			if(knots[i])
+				deallocate(knots[i]-order[i],nknots[i]+2*order[i]);
+		}
+		deallocate(knots,ndim);
+	}
+	if(coefficients)
+		deallocate(coefficients,naxes[0]*strides[0]);
+	if(nknots)
+		deallocate(nknots,ndim);
+	if(order)
+		deallocate(order,ndim);
+	if(extents){
+		if(extents[0])
+			deallocate(extents[0],2*ndim);
+		deallocate(extents,ndim);
+	}
+	if(periods)
+		deallocate(periods,ndim);
+	if(naxes)
+		deallocate(naxes,ndim);
+	if(strides)
+		deallocate(strides,ndim);
+	if(aux){
+		for(uint32_t i=0; i<naux; i++){
+			if(!aux[i])
+				continue;
+			if(aux[i][0])
+				deallocate(aux[i][0],strlen(&aux[i][0][0])+1);
+			if(aux[i][1])
+				deallocate(aux[i][1],strlen(&aux[i][1][0])+1);
+			deallocate(aux[i],2);
+		}
+		deallocate(aux,naux);
+	}
+	ndim=0; order=NULL; knots=NULL; nknots=NULL; extents=NULL; periods=NULL;
+	coefficients=NULL; naxes=NULL; strides=NULL; naux=0; aux=NULL;
+}
+
 template<typename Alloc>
 bool splinetable<Alloc>::read_fits_core(fitsfile* fits, const std::string& filePath){
 	int error = 0;
@@ -217,7 +277,9 @@ bool splinetable<Alloc>::read_fits_core(fitsfile* fits, const std::string& fileP
 				aux[i] = allocate<char_ptr>(2);
 				aux[i][0] = aux[i][1] = NULL;
 				aux[i][0] = allocate<char>(keylen);
+				aux[i][0][0] = '\0';
 				aux[i][1] = allocate<char>(valuelen);
+				aux[i][1][0] = '\0';
 				std::copy(key,key+keylen,aux[i][0]);
 				//remove stupid quotes mandated by FITS, but not removed by cfitsio on reading
 				//Note that we do not attempt to remove whitespace, because we cannot 
@@ -238,6 +300,11 @@ bool splinetable<Alloc>::read_fits_core(fitsfile* fits, const std::string& fileP
 					aux[i][1][valuelen-1]='\0';
 				}
 				i++;
+			}
+			//a keyword which could be read when counting but not now would leave a hole
+			for (unsigned i = 0; i < naux; i++) {
+				if (!aux[i])
+					throw std::runtime_error("Error reading auxiliary keywords from "+filePath);
 			}
 		} else {
 			aux = NULL;
@@ -286,8 +353,10 @@ bool splinetable<Alloc>::read_fits_core(fitsfile* fits, const std::string& fileP
 	//arrays which don't depend on the orders or numbers of knots before the
 	//ones which do
 	knots = allocate<double_ptr>(ndim);
+	std::fill(knots,knots+ndim,nullptr);
 	nknots = allocate<uint64_t>(ndim);
 	extents = allocate<double_ptr>(ndim);
+	std::fill(extents,extents+ndim,nullptr);
 	extents[0] = allocate<double>(2*ndim);
 	
 	//Read the coefficient table
